@@ -13,6 +13,11 @@ From BB Require Import BN Brute SpaceFacts TrapFacts PercolateFacts AttractorFac
   Strict PetriNet Control Meta FilterFacts PetriNetFacts TrappistFacts DiagramStruct DiagramSem1 DiagramCache
   DiagramDepth DiagramComplete Termination ControlFacts MetaFacts Candidates StrictFacts MinExpandFacts CandidatesFacts SymbolicTest SymbolicTestFacts Signed ReductionFacts ControlFacts2 Main Blocks BlocksFacts ObsFacts OwnerFacts CandidatesTerm
   PartialOwner BlockMath BlockComplete ASeeds ASeedsFacts LogChecks SkipRule SkipRuleFacts Names NamesFacts Perm PermFacts SCC SCCFacts SCCStruct ControlFacts3 SCCTerm FilterSym Main2 StrategyFacts ControlFacts4 SkipRuleFacts2 SCCComplete SCCAttr BlockComplete2 ControlFacts5 Iso SkipSem ControlFacts6.
+From BB Require Import PyLib PyLibSd PyLibPerc PyLibCore PyLibControl PySrcControl PySrcControlFacts.
+
+(* translator tie: the function GENERATED from the current text of control.drivers_of_succession (PySrcControl.v) computes the model's drivers_of_succession (per-step default bound, assumption grown by the LDOI of each step) *)
+Theorem C07_source_drivers_of_succession : forall (N : net) (succ : list (list (option bool))) (strat : bool) (maxd : option nat) (forb : option (list nat)), (forall ts : list (option bool), In ts succ -> length ts = nvars N) -> py_drivers_of_succession N succ strat maxd forb = Some (drivers_of_succession N succ strat (top_space (nvars N)) maxd match forb with | Some l => l | None => [] end).
+Proof. exact py_drivers_of_succession_spec. Qed.
 
 (* forcing, allowed variables only, within the size bound *)
 Theorem C07_find_drivers_sound : forall (N : net) (ts : list (option bool)) (all_strategy : bool) (assume : list (option bool)) (maxd : option nat) (forbidden : list nat) (drv : space), length ts = nvars N -> length assume = nvars N -> In drv (find_drivers N ts all_strategy assume maxd forbidden) -> length drv = nvars N /\ forces_ldoi N drv assume ts = true /\ (forall v : nat, In v (dom drv) -> ~ In v forbidden) /\ length (dom drv) <= match maxd with | Some k => k | None => length (vars_fixed (free_of ts assume)) end /\ (all_strategy = false -> forall (v : nat) (b : bool), nth v drv None = Some b -> nth v (free_of ts assume) None = Some b).
@@ -53,6 +58,7 @@ Proof. exact ff_filter_covers. Qed.
 Theorem C07_skip_feedforward_antichain : forall (succs : list (list (list (option bool)))) (a b : list space), (forall x : list (list (option bool)), In x succs -> forall (m : list (option bool)) (y : list (list (option bool))), In m x -> In y succs -> forall m' : list (option bool), In m' y -> length m = length m') -> In a (ff_filter succs) -> In b (ff_filter succs) -> subspace (signature a) (signature b) = true -> signature a = signature b.
 Proof. exact ff_filter_antichain. Qed.
 
+Print Assumptions C07_source_drivers_of_succession.
 Print Assumptions C07_find_drivers_sound.
 Print Assumptions C07_find_drivers_complete.
 Print Assumptions C07_find_drivers_minimal.
